@@ -42,6 +42,9 @@ REPLAY = [
     # C05 (slice), C12 (SIMD), C16 (linear algebra), C17 (NN): append here once their modules are merged, e.g.
     # dict(mod='c05', take={'quick': None, 'thorough': None}, stride={'quick': 1, 'thorough': 1}),
 ]
+# requests whose operands have more elements than this are not replayed: under ASan they cost several ms each and the
+# runner's time-out is per request STREAM (0.002 s per request), so a slow stream would be reported as a crash
+REPLAY_MAX_ELEMS = {'quick': 128, 'thorough': 512}
 SAN_SUFFIX = '_sanev'      # sanitizers + events; a name of its own so that the owners' caches are not evicted
 MAX_PARALLEL_COMPILES = 6
 
@@ -75,9 +78,17 @@ def _replay_specs(tier):
     return out
 
 
+def _only(name):
+    """developer switch: C02_ONLY=<substring>,<substring> restricts the run to the harness binaries whose name contains
+    one of the substrings (mutant triage without rebuilding all sanitizer TUs); unset = everything"""
+    sel = os.environ.get('C02_ONLY')
+    return True if not sel else any(x and x in name for x in sel.split(','))
+
+
 def harness_specs(tier):
     runner.JOBS = min(runner.JOBS, MAX_PARALLEL_COMPILES)     # sanitizer TUs are heavy; the machine is shared
-    return [t['spec'] for t in tus(tier)] + [M_SPEC] + list(_replay_specs(tier).values())
+    specs = [t['spec'] for t in tus(tier)] + [M_SPEC] + list(_replay_specs(tier).values())
+    return [s for s in specs if _only(s['name'])]
 
 
 def c02_clean(ans):
@@ -93,6 +104,22 @@ def c02_clean(ans):
 
 def _accepted(txt):
     return txt is not None and txt.startswith('ok')
+
+
+def _req_elems(req):
+    """largest element count among the `shape=`/`shape2=`/`a=`/`b=` operands of a request line (0 when none is given)"""
+    m = 0
+    for kv in req.split()[1:]:
+        k, _, v = kv.partition('=')
+        if k in ('shape', 'shape2', 'a', 'b', 'src', 'dst') or k.startswith('shape'):
+            try:
+                for part in v.split(';'):
+                    dims = [int(x) for x in part.split(',')] if part not in ('[]', '', 'None') else []
+                    if all(d >= 0 for d in dims):
+                        m = max(m, prod(dims))
+            except ValueError:
+                pass
+    return m
 
 
 def _cmp_replay(a, b):
@@ -122,6 +149,8 @@ def gen_replay(tier, rng):
                 continue                       # nobody says whether it is accepted
             if any(p(c) for p in preds):
                 continue                       # known-finding class of the owning property
+            if _req_elems(c.req) > REPLAY_MAX_ELEMS[tier]:
+                continue
             k += 1
             if k % stride:
                 continue
@@ -356,6 +385,29 @@ def cands(kind, s, rng, full):
 MAX_ELEMS = 600
 
 
+def parse_chain(req):
+    """(store, shape, [(kind, args)], mode) of a `chain` request line"""
+    d = dict(kv.split('=', 1) for kv in req.split()[1:])
+    s = [] if d['shape'] in ('[]', '') else [int(x) for x in d['shape'].split(',')]
+    stages = []
+    for st in d['ops'].split('/'):
+        parts = st.split(':')
+        stages.append((parts[0], [([] if a in ('[]', '') else [int(x) for x in a.split(',')]) for a in parts[1:]]))
+    return d.get('store', 'dyn'), s, stages, d.get('mode', 'view')
+
+
+def eval_fixed_buffer_numel_changes(case):
+    """known finding `eval.fixed-buffer-result`: na::eval(view) with the DEFAULT output over an ndarray_t whose buffer is a
+    std::array<T,N> and whose result has an element count other than N (pad / repeat / take / sum / tile / slice ...)"""
+    if not case.req.startswith('chain ') or 'store=arr' not in case.req or 'mode=eval' not in case.req:
+        return False
+    _, s, stages, _ = parse_chain(case.req)
+    x = np.empty(tuple(s), dtype=np.int8)
+    for k, a in stages:
+        x = np_stage(x, k, a)
+    return x.size != prod(s)
+
+
 class ChainGen:
     def __init__(self, tier, rng):
         self.tier, self.rng = tier, rng
@@ -380,8 +432,10 @@ class ChainGen:
         modelled = all(k in MODELLED for k in kinds)
         src = np.arange(prod(s), dtype=np.int64).reshape(tuple(s))
         nontrivial = not (x.shape == src.shape and (x == src).all())
-        return Case(req, t['name'], dom=modelled, oracle=show(x), model=modelled, nontrivial=nontrivial,
-                    tags=('chain', 'store=' + store, 'depth=%d' % len(stages), 'mode=' + mode) + tuple('kind=' + k for k in kinds))
+        known = store == 'arr' and mode == 'eval' and x.size != src.size      # eval_fixed_buffer_numel_changes
+        return Case(req, t['name'], dom=modelled and not known, oracle=show(x), model=modelled, nontrivial=nontrivial,
+                    tags=('chain', 'store=' + store, 'depth=%d' % len(stages), 'mode=' + mode) + tuple('kind=' + k for k in kinds)
+                    + (('known-defect-class',) if known else ()))
 
     def shape_after(self, s, stages):
         x = np.empty(tuple(s), dtype=np.int8)
@@ -626,13 +680,19 @@ def gen_assign(tier, rng):
                        oracle='ok data=' + fmt(d), tags=('assign', 'over-provisioned' if threads > n else 'exact-or-short'))
 
 
-def gen(tier, rng):
+def gen_all(tier, rng):
     yield from gen_chains(tier, random.Random(rng.random()))
     sub = random.Random(rng.random())
     yield from gen_mut(tier, sub)
     yield from gen_tree(tier, sub)
     yield from gen_assign(tier, sub)
     yield from gen_replay(tier, rng)
+
+
+def gen(tier, rng):
+    for c in gen_all(tier, rng):
+        if _only(c.harness):
+            yield c
 
 
 # ------------------------------------------------------------------------------------------------
@@ -655,7 +715,19 @@ def coverage_extra(cases, tier):
         for t in c.tags:
             if t.startswith('replay:') or t.startswith('store=') or t.startswith('depth='):
                 by[t] = by.get(t, 0) + 1
+    # which observer saw what (used for mutant triage): answers that are not clean per harness binary, by class, and
+    # clean answers whose value differs from the NumPy oracle (intra-buffer errors the sanitizers cannot see)
+    unclean, wrong = {}, {}
+    for c in cases:
+        a = c.impl or ''
+        if not c02_clean(a):
+            cls = 'event' if ' events=' in a else a.split(' ')[0][:40]
+            d = unclean.setdefault(c.harness, {})
+            d[cls] = d.get(cls, 0) + 1
+        elif 'replay' not in c.tags and c.oracle is not None and a != c.oracle:
+            wrong[c.harness] = wrong.get(c.harness, 0) + 1
     return {'hook_events': ev, 'crash_or_exception_answers': crashes, 'cases_by_source': by,
+            'unclean_answers_by_harness': unclean, 'clean_but_wrong_value_by_harness': wrong,
             'sanitizer_flavour': ' '.join(runner.FLAVOURS['san-dbg']) + ' -DNMTOOLS_VERIF -DPROTO_VERIF_EVENTS',
             'replayed_properties': [e['mod'].upper() for e in REPLAY if _mod(e['mod']) is not None]}
 
@@ -691,7 +763,7 @@ ASSUMPTIONS = [
 ]
 PARTIAL = ['diagonal2d_inBounds_partial: only the 2-d, non-negative-offset diagonal is proved in bounds (as in C04)',
            'capacity theorems cover shape_transpose, shape_reshape, broadcast_shape, shape_tile, remove_dims, shape_concatenate, shape_pad, shape_repeat; the other bounded index results (expand_dims, sliding_window, take, ...) are covered by the capacity hook only']
-KNOWN_PREDICATES = {}
+KNOWN_PREDICATES = {'eval_fixed_buffer_numel_changes': eval_fixed_buffer_numel_changes}
 TRUSTED = ['AddressSanitizer / UndefinedBehaviorSanitizer of g++ 12 and libstdc++ debug assertions as observers of real accesses',
            'the NMTOOLS_VERIF hook commits in $VERIF_REPO (hooks.json)']
 MANIFEST = dict(
